@@ -2,7 +2,7 @@
    Property theorems only; proofs live in lib/NegotiateProofs.v. *)
 From Coq Require Import ZArith List String.
 Require Import Verif.lib.PyLite Verif.gen.NegotiateGen Verif.lib.Negotiate Verif.lib.NegotiateProofs Verif.lib.NegSplit Verif.lib.NegSplitProofs.
-Require Import Verif.lib.NegCodec Verif.gen.NegCodecGen Verif.lib.NegCodecProofs Verif.lib.NegWire Verif.lib.NegWireProofs.
+Require Import Verif.lib.NegCodec Verif.gen.NegCodecGen Verif.lib.NegCodecProofs Verif.lib.NegWire Verif.lib.NegWireProofs Verif.lib.NegRefineProofs.
 Import ListNotations.
 Local Open Scope Z_scope.
 
@@ -26,7 +26,7 @@ Theorem C13_success_when_compatible : forall a b,
   (exists v, in_range (ep_vmin a) (ep_vmax a) v /\ in_range (ep_vmin b) (ep_vmax b) v) ->
   (exists i, in_range (ep_vocmin a) (ep_vocmax a) i /\ in_range (ep_vocmin b) (ep_vocmax b) i) ->
   (forall i, ep_hash a i = ep_hash b i) ->
-  (forall v, ep_accepts a v = true) -> (forall v, ep_accepts b v = true) ->
+  implements_own_range a -> implements_own_range b ->     (* the class invariant asserted by Negotiation.__init__ *)
   exists p, negotiate a b = (Banana p, Banana p).
 Proof. exact success_when_compatible. Qed.
 Print Assumptions C13_success_when_compatible.
@@ -38,9 +38,13 @@ Theorem C13_best_overlap_spec : forall a b c d,
 Proof. intros a b c d; split; [intros v; apply best_overlap_ok | apply best_overlap_exc]. Qed.
 Print Assumptions C13_best_overlap_spec.
 
-(* oversized negotiation input is refused: the cap read from dataReceived is 4096 *)
-Theorem C13_header_cap : forall n, header_refused n = true <-> 4096 < n.
-Proof. exact header_cap_4096. Qed.
+(* oversized negotiation input is refused, stated over the verdict TRANSLATED from dataReceived (0 = refuse): a terminator beyond
+   4096 bytes is refused; without a terminator the buffer is refused exactly from 4096 + 4 bytes on (4097..4099 are kept: a
+   terminator that starts within the cap may still be completed by the next packet) *)
+Theorem C13_header_cap :
+  (forall eoh buflen, 4096 < eoh -> header_verdict eoh buflen = 0) /\
+  (forall buflen, header_verdict (-1) buflen = 0 <-> 4100 <= buflen).
+Proof. exact header_cap_verdict. Qed.
 Print Assumptions C13_header_cap.
 
 (* "... for all chunkings of the negotiation bytes": the block splitter of Negotiation.dataReceived
@@ -214,3 +218,43 @@ Theorem C13_phase_stores_known :
   Forall (fun mv => In (snd mv) [ph_ENCRYPTED; ph_DECIDING; ph_BANANA]) send_phase_stores.
 Proof. exact phase_stores_known. Qed.
 Print Assumptions C13_phase_stores_known.
+
+(* ===================== round 5, follow-up ===================== *)
+
+(* the size guard of the splitter model IS the verdict translated from Negotiation.dataReceived: one step of `drain` refuses, waits
+   or splits exactly as header_verdict says for (buffer.find(terminator), len(buffer)); the chunk-independence theorems above are
+   therefore about the translated guard *)
+Theorem C13_drain_test_is_header_verdict : forall (ok : list Z -> bool) f buf k,
+  drain ok (S f) buf (S k) =
+    let v := header_verdict (eoh_of buf) (Z.of_nat (List.length buf)) in
+    if (v =? 0)%Z then (NDead, [], [])
+    else if (v =? 1)%Z then (NWait buf (S k), [], [])
+    else let e := Z.to_nat (eoh_of buf) in
+         let hdr := firstn e buf in
+         if ok hdr then let '(s, bs, p) := drain ok f (skipn (e + 4) buf) k in (s, hdr :: bs, p)
+         else (NDead, [hdr], []).
+Proof. exact drain_test_is_header_verdict. Qed.
+Print Assumptions C13_drain_test_is_header_verdict.
+
+(* int("%d" % n) = n for every integer (the model of int() is tied to Python's by the correspondence) *)
+Theorem C13_py_int_fmt_d : forall n, py_int (fmt_d n) = Ok n.
+Proof. exact py_int_fmt_d. Qed.
+Print Assumptions C13_py_int_fmt_d.
+
+(* bytes -> blocks -> dict -> fields -> decision, end to end: for every rendering hf of table hashes as distinct blank-free ASCII
+   tokens, and any two endpoints whose ids are well-formed block values and whose blocks fit the 4096-byte cap, the negotiation
+   carried out over the wire -- sendBlock, the receiver's terminator search and cap, parseLines, str.split, int, the key look-ups --
+   gives both ends exactly what the record-level model gives them *)
+Theorem C13_wire_negotiate_eq : forall hf, token_fmt hf -> forall a b, wire_ok hf a b -> wire_ok hf b a ->
+  wire_negotiate hf a b = negotiate a b.
+Proof. exact wire_negotiate_eq. Qed.
+Print Assumptions C13_wire_negotiate_eq.
+
+(* ... so the property holds of the bytes: identical parameters (highest common version, highest common table, equal hash) exactly
+   when the two are compatible, otherwise both fail, each with a negotiation error *)
+Theorem C13_wire_agreement_exact : forall hf, token_fmt hf -> forall a b, wire_ok hf a b -> wire_ok hf b a ->
+  ep_id a <> ep_id b -> implements_own_range a -> implements_own_range b ->
+  (compatible a b -> exists p, wire_negotiate hf a b = (Banana p, Banana p) /\ agreed a b p) /\
+  (~ compatible a b -> exists w1 w2, wire_negotiate hf a b = (Failed w1, Failed w2) /\ negotiation_error w1 /\ negotiation_error w2).
+Proof. exact wire_agreement_exact. Qed.
+Print Assumptions C13_wire_agreement_exact.
